@@ -4,7 +4,7 @@ open IV IV.Proto IV.ClientState
 
 /-! line protocol for C17 (stateful: one history = `init` followed by operations)
 
-  init  has0 has1  id reg0 unreg0 reg1 unreg1  ext0 ext1 ext2 ext3     → state
+  init  has0 has1  id reg0 unreg0 reg1 unreg1  ext0 ext1 ext2 ext3  denied(loc names, comma separated, `-` none)   → state
   read|new  entry-point  rhsm|~  fresh   → res TAB state
   fetch rhsm|~ fresh | connunreg | handleunreg 0|1 | regcheck 1|0|~ rhsm|~ fresh   → res TAB state
   reg | unreg date|~ | delreg | delunreg                               → res TAB state
@@ -70,10 +70,13 @@ def apply (s : St) (op : Option Op) : St × String :=
 
 def handle (s : St) (fs : List String) : St × String :=
   match fs with
-  | ["init", h0, h1, i, r0, u0, r1, u1, e0, e1, e2, e3] =>
+  | ["init", h0, h1, i, r0, u0, r1, u1, e0, e1, e2, e3, dn] =>
     match decBool h0, decBool h1, [i, r0, u0, r1, u1].mapM decNode, [e0, e1, e2, e3].mapM decENode with
     | some h0, some h1, some [i, r0, u0, r1, u1], some es =>
-      let E : Env := ⟨fun d => if d then h1 else h0⟩
+      let dl := decList dn
+      let E : Env := ⟨fun d => if d then h1 else h0, fun l => match l with
+          | .id => dl.contains "id" | .reg false => dl.contains "reg0" | .unreg false => dl.contains "unreg0"
+          | .reg true => dl.contains "reg1" | .unreg true => dl.contains "unreg1"⟩
       let fs : FS := ⟨fun l => match l with
           | .id => i | .reg false => r0 | .unreg false => u0 | .reg true => r1 | .unreg true => u1,
         fun k => match es[k]? with | some n => n | none => .absent⟩
